@@ -7,7 +7,24 @@
 (* refers to - a map from keys to a string or a number, optionally with a  *)
 (* time-to-live - and the reply each command renders:                      *)
 (*   SET GET DEL SETNX GETSET INCR INCRBY DECR DECRBY APPEND EXISTS STRLEN *)
-(*   EXPIRE PERSIST, plus TICK (time passes beyond every time-to-live).    *)
+(*   EXPIRE PEXPIRE EXPIREAT PEXPIREAT PERSIST SETEX PSETEX, SET with the  *)
+(*   options EX / PX / NX / XX (and NX with the wait options TX / PTX),    *)
+(*   plus TICK (the clock advances by whole seconds).                      *)
+(*                                                                         *)
+(* Time-to-live.  A key carries None or a DEADLINE, kept as an interval    *)
+(* [lo, hi] of model milliseconds: a seconds option (EX, SETEX, EXPIRE,    *)
+(* EXPIREAT) asks for n s, a millisecond option (PX, PSETEX, PEXPIRE,      *)
+(* PEXPIREAT) for n ms; the server may round UP to its own granularity     *)
+(* (milliseconds up to 3000 ms, whole seconds up to 65535 s, whole minutes *)
+(* above - README "Expried Parameter FLAG": 2-byte value + unit flag) but  *)
+(* never down below n and never into another unit:                         *)
+(*     lo = now + n,  hi = lo + granularity(n).                            *)
+(* PERSIST and a plain SET / GETSET remove the time-to-live (Redis; the    *)
+(* converter sends them with the unlimited flag), INCR.. / APPEND keep it. *)
+(* A key whose deadline lies in [lo - 1 s, hi + 3 s] of the clock (sweeper *)
+(* latitude, property C06) or whose term is served by the millisecond      *)
+(* wheel (not driven by the virtual clock) is neither alive nor gone for   *)
+(* sure: a TICK into that zone is an open case.                            *)
 (* Each command is what protocol/textcommand.go converts to a LOCK/UNLOCK  *)
 (* with a value operation (SET = update-or-lock with SET data, key as      *)
 (* LockId; DEL = unlock-first; SETNX = lock with a fresh LockId; GET =     *)
@@ -23,6 +40,33 @@
 EXTENDS Integers, Sequences, FiniteSets, TLC
 
 Absent == [p |-> FALSE]
+
+\* time-to-live: on, deadline interval [lo, hi] (model ms), ms = served by the millisecond wheel,
+\* src = option class that set it (label only)
+NoTtl == [on |-> FALSE, lo |-> 0, hi |-> 0, ms |-> FALSE, src |-> "none"]
+SecTtl(now, n, at) ==
+    [on |-> TRUE, lo |-> now + n * 1000 - (IF at THEN 1000 ELSE 0), hi |-> now + n * 1000 + (IF n > 65535 THEN 60000 ELSE 1000), ms |-> FALSE,
+     src |-> IF n > 65535 THEN "seconds-option-above-65535-minutes" ELSE "seconds-option-up-to-65535"]
+MsTtl(now, n, at) ==
+    [on |-> TRUE, lo |-> now + n - (IF at THEN 1000 ELSE 0), hi |-> now + n + (IF n > 65535000 THEN 60000 ELSE 1000), ms |-> n <= 3000,
+     src |-> IF n > 65535000 THEN "ms-option-above-65535000-minutes"
+             ELSE IF n > 3000 THEN "ms-option-above-3000-stored-as-seconds"      \* the range of finding A38
+             ELSE "ms-option-up-to-3000"]
+\* the time-to-live a command asks for (c.d = n)
+AskedTtl(c, now) ==
+    CASE c.c \in {"SET_EX", "SETEX", "EXPIRE"} -> SecTtl(now, c.d, FALSE)
+      [] c.c = "EXPIREAT" -> SecTtl(now, c.d, TRUE)
+      [] c.c \in {"SET_PX", "PSETEX", "PEXPIRE"} -> MsTtl(now, c.d, FALSE)
+      [] c.c = "PEXPIREAT" -> MsTtl(now, c.d, TRUE)
+      [] OTHER -> NoTtl
+SWEEP == 3000
+SureGone(t, now)  == t.on /\ ~t.ms /\ now >= t.hi + SWEEP
+SureAlive(t, now) == ~t.on \/ now <= t.lo - 1000
+\* the wait a command asks for (SET .. NX TX n / PTX n): interval of milliseconds
+AskedWait(c) == CASE c.c = "SET_NX_TX"  -> [lo |-> c.d * 1000, hi |-> c.d * 1000 + (IF c.d > 65535 THEN 60000 ELSE 1000), ms |-> FALSE]
+                  [] c.c = "SET_NX_PTX" -> [lo |-> c.d, hi |-> c.d + (IF c.d > 65535000 THEN 60000 ELSE 1000), ms |-> c.d <= 3000]
+                  [] OTHER -> [lo |-> 0, hi |-> 0, ms |-> FALSE]
+
 Str(s, ttl, nx) == [p |-> TRUE, k |-> "s", s |-> s, n |-> 0, ttl |-> ttl, nx |-> nx]
 Num(n, ttl, nx) == [p |-> TRUE, k |-> "n", s |-> <<>>, n |-> n, ttl |-> ttl, nx |-> nx]
 \* nx: the key was created by SETNX (bookkeeping used ONLY to label an observed deviation)
@@ -44,45 +88,73 @@ ReadReply(v) == IF ~v.p THEN {RNil}
 
 Delta(c) == CASE c.c = "INCR" -> 1 [] c.c = "DECR" -> -1 [] c.c = "INCRBY" -> c.d [] c.c = "DECRBY" -> 0 - c.d [] OTHER -> 0
 
-\* result: [kv, replies (set of acceptable replies), open (no judgement)]
-Exec(kv, c) ==
+\* result: [kv, replies (set of acceptable replies), open (no judgement)].  now: model clock in ms.
+Exec(kv, c, now) ==
     LET v == kv[c.k]
         R(kv2, rs) == [kv |-> kv2, replies |-> rs, open |-> FALSE]
         Put(x) == [kv EXCEPT ![c.k] = x]
+        keep == IF v.p THEN v.ttl ELSE NoTtl
+        knx == IF v.p THEN v.nx ELSE FALSE
     IN
-    CASE c.c = "SET"    -> R(Put(Str(c.v, FALSE, FALSE)), {ROk})
+    \* a key whose term is on the millisecond wheel: that wheel runs on the wall clock in a goroutine of its own
+    \* (db.go checkMillisecondExpried), which a sequential driver on a virtual clock cannot order against the next
+    \* command - what follows on that key is an open case
+    IF c.c # "TICK" /\ v.p /\ v.ttl.on /\ v.ttl.ms THEN [kv |-> kv, replies |-> {}, open |-> TRUE]
+    ELSE
+    CASE c.c = "SET"    -> R(Put(Str(c.v, NoTtl, FALSE)), {ROk})
+      [] c.c \in {"SET_EX", "SET_PX", "SETEX", "PSETEX"} -> R(Put(Str(c.v, AskedTtl(c, now), FALSE)), {ROk})
+      [] c.c \in {"SET_NX", "SET_NX_TX", "SET_NX_PTX"} -> IF v.p THEN R(kv, {RNil}) ELSE R(Put(Str(c.v, NoTtl, TRUE)), {ROk})
+      [] c.c = "SET_XX" -> IF v.p THEN R(Put(Str(c.v, NoTtl, v.nx)), {ROk}) ELSE R(kv, {RNil})
       [] c.c = "GET"    -> R(kv, ReadReply(v))
       [] c.c = "DEL"    -> R(Put(Absent), {RInt(IF v.p THEN 1 ELSE 0)})
-      [] c.c = "SETNX"  -> IF v.p THEN R(kv, {RInt(0)}) ELSE R(Put(Str(c.v, FALSE, TRUE)), {RInt(1)})
-      [] c.c = "GETSET" -> R(Put(Str(c.v, FALSE, FALSE)), ReadReply(v))
+      [] c.c = "SETNX"  -> IF v.p THEN R(kv, {RInt(0)}) ELSE R(Put(Str(c.v, NoTtl, TRUE)), {RInt(1)})
+      [] c.c = "GETSET" -> R(Put(Str(c.v, NoTtl, FALSE)), ReadReply(v))
       [] c.c \in {"INCR", "DECR", "INCRBY", "DECRBY"} ->
              IF v.p /\ v.k = "s" THEN [kv |-> kv, replies |-> {}, open |-> TRUE]
              ELSE LET n == (IF v.p THEN v.n ELSE 0) + Delta(c)
-                  IN R(Put(Num(n, IF v.p THEN v.ttl ELSE FALSE, IF v.p THEN v.nx ELSE FALSE)), {RInt(n)})
+                  IN R(Put(Num(n, keep, knx)), {RInt(n)})
       [] c.c = "APPEND" ->
              IF v.p /\ v.k = "n" THEN [kv |-> kv, replies |-> {}, open |-> TRUE]
              ELSE LET s == (IF v.p THEN v.s ELSE <<>>) \o c.v
-                  IN R(Put(Str(s, IF v.p THEN v.ttl ELSE FALSE, IF v.p THEN v.nx ELSE FALSE)), {RInt(Len(s))})
+                  IN R(Put(Str(s, keep, knx)), {RInt(Len(s))})
       [] c.c = "EXISTS" -> R(kv, {RInt(IF v.p THEN 1 ELSE 0)})
       [] c.c = "STRLEN" -> R(kv, {RInt(IF ~v.p THEN 0 ELSE IF v.k = "s" THEN Len(v.s) ELSE Len(Digits(v.n)))})
-      [] c.c = "EXPIRE" -> IF v.p THEN R(Put([v EXCEPT !.ttl = TRUE]), {RInt(1)}) ELSE R(kv, {RInt(0)})
+      [] c.c \in {"EXPIRE", "PEXPIRE", "EXPIREAT", "PEXPIREAT"} ->
+             IF v.p THEN R(Put([v EXCEPT !.ttl = AskedTtl(c, now)]), {RInt(1)}) ELSE R(kv, {RInt(0)})
       [] c.c \in {"PERSIST", "PERSIST3"} ->
              \* present without a time-to-live: Redis answers 0 ("nothing removed"); a store that answers 1 ("key is
              \* persistent now") is as plain - left open between the two
-             IF v.p /\ v.ttl THEN R(Put([v EXCEPT !.ttl = FALSE]), {RInt(1)})
+             IF v.p /\ v.ttl.on THEN R(Put([v EXCEPT !.ttl = NoTtl]), {RInt(1)})
              ELSE IF v.p THEN R(kv, {RInt(0), RInt(1)})
              ELSE R(kv, {RInt(0)})
-      [] c.c = "TICK"   -> R([k \in DOMAIN kv |-> IF kv[k].p /\ kv[k].ttl THEN Absent ELSE kv[k]], {})
+      [] c.c = "TICK"   ->
+             \* the clock moves to now + c.d s: keys surely past their deadline are gone, keys surely before it stay;
+             \* anything in between (or on the millisecond wheel) is open
+             LET t1 == now + c.d * 1000
+                 live == {k \in DOMAIN kv : kv[k].p}
+             IN IF \E k \in live : ~SureGone(kv[k].ttl, t1) /\ ~SureAlive(kv[k].ttl, t1)
+                THEN [kv |-> kv, replies |-> {}, open |-> TRUE]
+                ELSE R([k \in DOMAIN kv |-> IF kv[k].p /\ SureGone(kv[k].ttl, t1) THEN Absent ELSE kv[k]], {})
       [] OTHER -> [kv |-> kv, replies |-> {}, open |-> TRUE]
+
+WriteCmds == {"SET", "SET_EX", "SET_PX", "SETEX", "PSETEX", "SET_NX", "SET_XX", "SET_NX_TX", "SET_NX_PTX", "GETSET", "SETNX", "INCR", "DECR", "INCRBY", "DECRBY",
+              "APPEND", "EXPIRE", "PEXPIRE", "EXPIREAT", "PEXPIREAT", "PERSIST", "PERSIST3"}
+
+\* Does an observed deadline fit the time-to-live of the store?  unlimited: the hold never expires; left: ms from
+\* the clock to the recorded deadline (the engine records deadline = start + term + 1 s, hence the extra second)
+TtlFits(t, now, unlimited, left) ==
+    IF ~t.on THEN unlimited
+    ELSE ~unlimited /\ now + left >= t.lo /\ now + left <= t.hi + 1000
 
 \* label of an observed deviation (for stable finding signatures; never part of a verdict)
 DeviationClass(kv, c, reply, panicked) ==
     LET v == kv[c.k] IN
     CASE panicked /\ c.c = "APPEND" /\ ~v.p -> "append-on-absent-key-panics-in-reply-writer"
       [] ~panicked /\ c.c = "PERSIST" /\ reply.t = "err" -> "persist-key-is-rejected-as-syntax-error"
-      [] ~panicked /\ v.p /\ v.nx /\ c.c \in {"SET", "GETSET", "APPEND", "INCR", "DECR", "INCRBY", "DECRBY", "EXPIRE", "PERSIST", "PERSIST3"}
+      [] ~panicked /\ c.c = "EXPIREAT" /\ reply.t = "err" -> "expireat-is-an-unknown-command"
+      [] ~panicked /\ v.p /\ v.nx /\ c.c \in (WriteCmds \ {"SETNX", "SET_NX", "SET_NX_TX", "SET_NX_PTX"})
              -> "write-on-key-created-by-setnx-refused"
-      [] ~panicked /\ c.c = "EXPIRE" /\ ~v.p /\ reply = RInt(1) -> "expire-on-absent-key-answers-1"
+      [] ~panicked /\ c.c \in {"EXPIRE", "PEXPIRE", "EXPIREAT", "PEXPIREAT"} /\ ~v.p /\ reply = RInt(1) -> "expire-on-absent-key-answers-1"
       [] ~panicked /\ c.c \in {"PERSIST", "PERSIST3"} /\ ~v.p /\ reply = RInt(1) -> "expire-on-absent-key-answers-1"
       [] OTHER -> "other"
 
